@@ -239,6 +239,7 @@ def draw_swarm(rng, version=None):
     sw["version"] = version or rng.choice(list(spec.VERSIONS))
     sw["all"] = rng.chance(0.55)
     sw["nocolor"] = rng.chance(0.5)
+    sw["alt_version_spelling"] = rng.chance(0.2)
     sw["w_legal"] = rng.choice([2, 4, 10, 30])
     sw["w_empty"] = rng.choice([0, 1, 3, 8])
     sw["w_illegal"] = rng.choice([0, 1, 3, 8])
@@ -558,9 +559,9 @@ class BuilderEngine(object):
         agent = LiveAgent(rng.fork("workload"), rng.fork("faults"), sw, sw["version"], sw["all"],
                           self.labels[sw["version"]])
         rec = runner23.ScriptAgent([], fallback=agent)
-        res = runner23.run_builder(sw["version"], sw["all"], sw["nocolor"], rec, MAX_READS)
+        res = runner23.run_builder(sw["version"], sw["all"], sw["nocolor"], rec, MAX_READS, alt_spelling=sw["alt_version_spelling"])
         item = {"k": "builder", "version": sw["version"], "all": sw["all"], "nocolor": sw["nocolor"],
-                "script": rec.served, "cap": MAX_READS}
+                "script": rec.served, "cap": MAX_READS, "alt_version_spelling": sw["alt_version_spelling"]}
         trace = {"engine": "builder", "run_seed": run_seed, "run_index": index, "swarm": sw, "item": item}
         out = self.assess(trace, res)
         for k, n in agent.counters.items():
@@ -607,7 +608,8 @@ class BuilderEngine(object):
         item = trace["item"]
         fallback = runner23.FirstOfferedAgent() if shrinking else None
         rec = runner23.ScriptAgent(item["script"], fallback=fallback)
-        res = runner23.run_builder(item["version"], item["all"], item["nocolor"], rec, item.get("cap", MAX_READS))
+        res = runner23.run_builder(item["version"], item["all"], item["nocolor"], rec, item.get("cap", MAX_READS),
+                                   alt_spelling=item.get("alt_version_spelling", False))
         t = dict(trace)
         t["item"] = dict(item)
         t["item"]["script"] = [list(x) for x in rec.served]
@@ -624,7 +626,8 @@ class BuilderEngine(object):
                     "refusals": info["refusals"], "accepted_answers": info["accepted"],
                     "either_outcomes": info["either"], "unobservable_reads": info["unobservable"],
                     "sessions.unobservable": 1 if info["unobservable"] else 0,
-                    "config.%s.%s" % (item["version"], "all" if item["all"] else "mandatory"): 1}
+                    "config.%s.%s" % (item["version"], "all" if item["all"] else "mandatory"): 1,
+                    "config.version_passed_as_other_numeric_type": 1 if item.get("alt_version_spelling") else 0}
         nontrivial = bool(info["refusals"] or info["noncanonical"] or info["faults"])
         return {"trace": trace, "digest": dg, "violations": vio, "counters": counters,
                 "nontrivial": nontrivial, "steps": res["reads"],
@@ -651,6 +654,8 @@ class BuilderEngine(object):
             yield with_item(all=False)
         if not it["nocolor"]:
             yield with_item(nocolor=True)
+        if it.get("alt_version_spelling"):
+            yield with_item(alt_version_spelling=False)
         sp = spec.SPECS[it["version"]]
         for i, a in enumerate(it["script"]):
             for simpler in self._simpler(a, sp):
